@@ -258,7 +258,12 @@ def stepLine (st : State) (toks : List String) : State × String :=
     | some s, some a, some sd => ({ st with beStatus := s, beAddr := a % 2 ^ 32, beSeed := sd }, "ok")
     | _, _, _ => (st, "bad-op")
   | ["rp.recv"] => doRecv st none
-  | ["rp.recvx", tag] => doRecv st (some tag)
+  | ["rp.recvx", tag, hex] =>
+    -- feed a damaged copy of a valid frame (already in its transport envelope) and receive it: one
+    -- operation, so that the tag naming the damage cannot be separated from the octets
+    match parseHex hex with
+    | some d => doRecv { st with p := { st.p with src := st.p.src ++ d.map SrcEv.octet } } (some tag)
+    | none => (st, "bad-op")
   | ["rp.process"] =>
     let be : Backend := { status := st.beStatus, address := st.beAddr, data := pattern st.beSeed }
     let (s, calls) := regp_process c st.p.snk st.mf be
